@@ -586,6 +586,15 @@ def check_multi(name, tlist, form, o, r, items, ntraj, bad, obs_out=None):
         if name == "nm_mcsolve":
             if len(r.average_trace) != n or (keep and np.shape(r.runs_trace) != (ntraj, n)):
                 bad.append(("trace", "trace records are not aligned with tlist"))
+            for i, tr in enumerate(trajs):
+                if len(tr.trace) != n:
+                    bad.append(("trace", "trajectory trace is not one value per time"))
+                elif not np.array_equal(np.asarray(r.runs_trace[i]), np.asarray(tr.trace)):
+                    bad.append(("trace", "runs_trace[i] is not trajectory i's trace"))
+            if keep and trajs and np.max(np.abs(
+                    np.mean([np.asarray(tr.trace) for tr in trajs], axis=0)
+                    - np.asarray(r.average_trace))) > 1e-9:
+                bad.append(("average-validation", "average_trace is not the mean of the runs' traces"))
     if name in ("ssesolve", "smesolve", "smesolve_het"):
         het = name.endswith("het")
         nsc = 2 if name == "ssesolve" else 1
